@@ -124,7 +124,47 @@ pub fn load_grammar(repo: &Path) -> Result<Grammar, String> {
     let text = std::fs::read_to_string(&p).map_err(|e| format!("{}: {}", p.display(), e))?;
     let mut g = crate::grammar::parse_grammar(&text)?;
     undo_nonterminal_renames(&mut g);
+    register_new_helpers(&g);
     Ok(g)
+}
+
+/// Nonterminals the reviewed grammar does not have, with the nonterminal names they are made of (for alternative keys).
+fn register_new_helpers(g: &Grammar) {
+    let Some(verif) = std::env::var_os("VERIF_DIR") else { return };
+    let Ok(txt) = std::fs::read_to_string(Path::new(&verif).join("refdata/nonterminals.json")) else { return };
+    let Ok(v) = serde_json::from_str::<serde_json::Value>(&txt) else { return };
+    let reviewed: std::collections::BTreeSet<String> = v.as_array().cloned().unwrap_or_default().iter().filter_map(|r| r.get(0)?.as_str().map(|s| s.to_string())).collect();
+    let mut map: BTreeMap<String, Vec<String>> = BTreeMap::new();
+    for d in &g.defs {
+        if reviewed.contains(&d.name) {
+            continue;
+        }
+        let mut names: Vec<String> = vec![];
+        for a in &d.alts {
+            for s in &a.syms {
+                let mut v = vec![];
+                Grammar::sym_names(s, &mut v);
+                for n in v {
+                    if g.def(&n).is_some() && !matches!(n.as_str(), "OneOrMore" | "TwoOrMore" | "Comma") && n != d.name && !names.contains(&n) {
+                        names.push(n);
+                    }
+                }
+            }
+        }
+        // a helper that refers to itself is a list of what it is made of
+        let recursive = d.alts.iter().any(|a| {
+            a.syms.iter().any(|s| {
+                let mut v = vec![];
+                Grammar::sym_names(s, &mut v);
+                v.contains(&d.name)
+            })
+        });
+        if recursive {
+            names = names.into_iter().map(|n| format!("{}*", n)).collect();
+        }
+        map.insert(d.name.clone(), names);
+    }
+    crate::rules::grammar_rules::NEW_HELPERS.with(|h| *h.borrow_mut() = map);
 }
 
 /// (name, number of macro parameters, declared type, number of alternatives) of every nonterminal
